@@ -349,9 +349,18 @@ def gen_microdvd(rng, tag, text=None):
     n = rng.randrange(1, 9)
     cues = []
     frame = rng.choice([0, 1, 24, 25, 201, 1000, 90000, 2159999, 9000000])
+    # frame numbers whose instant is a whole number of microseconds (multiples of the rate's numerator): there
+    # an inexact rate lands just below the integer
+    whole = f.numerator if f.denominator != 1 and rng.random() < 0.3 else None
+    if whole:
+        feats.add('frames-on-whole-microseconds')
     for i in range(n):
         a = frame + rng.choice([0, 1, 2, 7, 24, 25, 100, 1499])
+        if whole:
+            a = (a // whole + 1) * whole
         b = a + rng.choice([1, 1, 2, 24, 25, 75, 3000])
+        if whole and rng.random() < 0.5:
+            b = (b // whole + 1) * whole
         frame = b + rng.choice([0, 0, 1, 50])
         lines = (text or inline.plain_lines)(rng, f'{tag}.{i}', 'microdvd')
         doc += '{%d}{%d}' % (a, b) + '|'.join(inline.render(ln, 'microdvd', rng) for ln in lines) + '\n'
